@@ -16,7 +16,8 @@ LEAN_MODULES = ["Ebv.Props.C25"]
 MODEL_MODULES = ["Ebv.Model.Addr"]
 DRIVER = "Drivers/C25.lean"
 THEOREMS = [
-    "Ebv.C25.inv_run", "Ebv.C25.in_range", "Ebv.C25.range_inclusive", "Ebv.C25.handed_out_once",
+    "Ebv.C25.inv_run", "Ebv.C25.in_range", "Ebv.C25.in_range_default", "Ebv.C25.usedIn_run", "Ebv.C25.range_inclusive",
+    "Ebv.C25.range_is_per_master", "Ebv.C25.handed_out_once",
     "Ebv.C25.drawn_distinct", "Ebv.C25.never_answered",
 ]
 TRUSTED = ["hand-written model Ebv.Addr of find_free_address/assigned_address/get_serial/initialize, tied by exact "
@@ -28,8 +29,14 @@ ASSUMPTIONS = ["during the run station-address registers change only through thi
                "ec.roundtrip is the only way the anchored code reaches the bus (it is replaced by the simulated bus; "
                "wkc 0 -> EtherCatError as process_packet does); ec.count is served through roundtrip_packet",
                "the rest of Terminal.initialize after the address write (set_state, FMMU reset, apply_eeprom) is stubbed",
-               "random.randint(lo, hi) returns lo + r % (hi-lo+1) for an arbitrary raw r (any PRNG)"]
-RULE = ("case = bus of 1..6 terminals (0 = unaddressed, pre-configured addresses from a small pool incl. both range ends and "
+               "random.randint(lo, hi) returns lo + r % (hi-lo+1) for an arbitrary raw r (any PRNG)",
+               "a range is configured as the library allows on the unchanged tree: class attribute terminal_addr_range of a subclass of any "
+               "master class, or attribute of the instance; lo <= hi (otherwise randint raises); ParallelEtherCat's mailbox lock file is "
+               "an object with the bounds run() would give it"]
+RULE = ("master = one of EtherCat/SimpleEtherCat/FastEtherCat/ParallelEtherCat with terminal_addr_range left at the default (40%) or "
+        "configured as class attribute of a subclass, of a subclass's subclass, or on the instance: ranges inside / overlapping / "
+        "outside the default, at both ends of the 16-bit space, spans 1..20001; the oracle's range is the configured one; "
+        "case = bus of 1..6 terminals (0 = unaddressed, pre-configured addresses from a small pool incl. both range ends and "
         "out-of-range values), serial numbers, 0..3 concurrent initialize(relative) calls + the scan, raw PRNG script drawn "
         "from the same small pool (collisions with used and with answered addresses) followed by enough fresh numbers, "
         "schedule = random picks among pending requests (process / deliver); non-trivial = find_free_address returned at least once")
@@ -41,6 +48,44 @@ class Starved(Exception):
 
 class Req:
     __slots__ = ("cmd", "pos", "offset", "args", "fut", "phase", "result", "error")
+
+
+MASTERS = ("EtherCat", "SimpleEtherCat", "FastEtherCat", "ParallelEtherCat")
+
+
+def default_range():
+    """the library's default: what a plain master uses when nothing was configured (the regenerated addrLo/addrHi)"""
+    from .. import extract
+    import ebpfcat.ethercat as E
+    return extract._default_addr_range(E)
+
+
+def declared_range(case):
+    """the range the case configures for its master — the oracle's yardstick (never read back from the master)"""
+    return tuple(case["range"]) if case.get("range") else default_range()
+
+
+def make_master(case):
+    """the master of the case: one of the library's master classes, its address range configured the way the case says:
+    `how` = default (nothing configured) | subclass (class attribute of a subclass, as the documentation of the attribute
+    suggests) | subclass2 (on a subclass, used through a further subclass) | instance (set on the object after construction)"""
+    import ebpfcat.ethercat as E
+    import ebpfcat.ebpfcat as B
+    name = case.get("master", "EtherCat")
+    base = E.EtherCat if name == "EtherCat" else getattr(B, name)
+    how = case.get("how", "default")
+    if how == "default":
+        return base("sim")
+    rng_ = tuple(case["range"])
+    if how == "subclass":
+        return type("Master", (base,), {"terminal_addr_range": rng_})("sim")
+    if how == "subclass2":
+        mid = type("SiteMaster", (base,), {"terminal_addr_range": rng_})
+        return type("Master", (mid,), {})("sim")
+    assert how == "instance", how
+    ec = base("sim")
+    ec.terminal_addr_range = rng_
+    return ec
 
 
 def run_impl(case):
@@ -62,7 +107,10 @@ def run_impl(case):
         return a + draws.pop(0) % (b - a + 1)
 
     loop = asyncio.new_event_loop()
-    ec = EtherCat("sim")
+    ec = make_master(case)
+    if hasattr(ec, "get_ethertype"):     # ParallelEtherCat: the mailbox lock file its run() creates (environment; no file here)
+        import types
+        ec.mbx_lock_file = types.SimpleNamespace(minimum=ec.terminal_addr_range[0], maximum=ec.terminal_addr_range[1], fd=-1)
 
     async def roundtrip(cmd, pos, offset, *args, data=None, idx=0):
         r = Req()
@@ -194,7 +242,7 @@ def run_impl(case):
         asyncio.set_event_loop(None)
         loop.close()
     return {"events": events, "regs": regs, "map": amap, "used": sorted(ec.used_addresses), "status": status,
-            "failures": failures, "range": tuple(EtherCat.terminal_addr_range)}
+            "failures": failures, "range": declared_range(case)}
 
 
 def show(obs):
@@ -248,12 +296,28 @@ def oracle(ctx, case, obs):
                     f"terminal {p} shares the address {regs[p]} assigned by the master", case, out, "twice")
 
 
-def gen(rng, lo, hi):
+def gen_range(rng, dlo, dhi):
+    """how the master's range is configured: the default; or an own range — inside, overlapping, outside the default one, at
+    both ends of the 16-bit address space, from a handful of addresses (span >= 24 so that nobody has to starve) to thousands"""
+    if rng.random() < 0.4:
+        return {}
+    span = rng.choice([24, 25, 31, 100, 1000, 20000])
+    lo = rng.choice([1, 2, dlo, dlo - span // 2, dhi - span // 2, dhi, dhi + 1, 40000, 0xffff - span, rng.randint(1, 0xffff - span)])
+    lo = max(1, min(lo, 0xffff - span))
+    return {"range": [lo, lo + span], "how": rng.choice(["subclass", "subclass", "subclass2", "instance"]),
+            "master": rng.choice(MASTERS)}
+
+
+def gen(rng, dlo, dhi):
+    conf = gen_range(rng, dlo, dhi)
+    lo, hi = conf["range"] if conf else (dlo, dhi)
+    if not conf and rng.random() < 0.3:
+        conf = {"master": rng.choice(MASTERS)}
     span = hi - lo + 1
     n = rng.randint(1, 6)
     pool = list({rng.choice([lo, hi, lo + 1, hi - 1, rng.randint(lo, hi), rng.randint(lo, hi)])
                  for _ in range(rng.randint(2, 4))})
-    outside = [5, lo - 1, hi + 1, 40000]
+    outside = [5, max(1, lo - 1), hi + 1, 40000, dlo, dhi]
     bus = []
     for _ in range(n):
         x = rng.random()
@@ -288,13 +352,21 @@ def gen(rng, lo, hi):
         sched = sched[:rng.randrange(0, len(sched))]          # the run is cut short
     if rng.random() < 0.03:
         draws = draws[:rng.randrange(0, len(draws) + 1)]      # the PRNG script may run out
-    return {"bus": bus, "serials": serials, "draws": draws, "tasks": tasks, "sched": sched}
+    return {"bus": bus, "serials": serials, "draws": draws, "tasks": tasks, "sched": sched, **conf}
 
 
 def run(ctx):
-    from ebpfcat.ethercat import EtherCat
-    lo, hi = EtherCat.terminal_addr_range
+    lo, hi = default_range()
     cases = [gen(ctx.rng, lo, hi) for _ in range(ctx.n(6000, 80000))]
+    # tiny configured ranges (1-4 addresses): more terminals than addresses, the PRNG script may run out ("starved")
+    for _ in range(ctx.n(300, 3000)):
+        c = gen(ctx.rng, lo, hi)
+        a = ctx.rng.choice([1, lo, hi, 0xfffc, ctx.rng.randint(1, 0xfff0)])
+        c.update(range=[a, a + ctx.rng.randrange(0, 4)], how=ctx.rng.choice(["subclass", "subclass2", "instance"]),
+                 master=ctx.rng.choice(MASTERS))
+        c["draws"] = [ctx.rng.randrange(0, 12) for _ in range(ctx.rng.randrange(0, 14))]
+        c["bus"] = [0 if ctx.rng.random() < 0.6 else ctx.rng.choice([a, a + 1, 5]) for _ in c["bus"]]
+        cases.append(c)
     # small fixed family: every terminal unaddressed, all draws equal, FIFO and LIFO-ish schedules
     for n in (1, 2, 3, 4):
         for sched in ([0] * 200, [7] * 200, [1, 0] * 100):
@@ -306,6 +378,8 @@ def run(ctx):
         rets = [e for e in obs["events"] if e[0] == "ret"]
         coll = any(e[0] == "P" and e[2] for e in obs["events"]) or len(obs["used"]) > len(rets)
         ctx.case(c, nontrivial=bool(rets), kind=obs["status"] + ("+collision" if coll else ""))
+        ctx.stats["range:" + c.get("how", "default")] += 1
+        ctx.stats["master:" + c.get("master", "EtherCat")] += 1
         oracle(ctx, c, obs)
         impl.append(show(obs))
     model = ctx.drive(DRIVER, cases, "address assignment")
@@ -322,7 +396,8 @@ def replay(ctx, case):
 
 LEVEL_TEXT = ("Lean 4 proof over a hand-written model of find_free_address / assigned_address / get_serial / initialize as "
               "concurrent tasks: for every bus, every set of tasks, every raw PRNG script and every schedule (unbounded, two "
-              "phases per request) the addresses handed out lie in terminal_addr_range (regenerated, both ends reachable), are "
+              "phases per request) the addresses handed out lie in the terminal_addr_range configured for that master (any lo <= hi; unconfigured: the regenerated "
+              "default; both ends reachable), are "
               "pairwise distinct and in used_addresses, are only written by the task that got them, are handed out only after "
               "an unanswered probe, never equal an address at which a probe was answered, and from the unanswered probe to the "
               "master's own write no terminal has them.  Tied to /repo by exact correspondence of the real coroutines "
